@@ -43,6 +43,10 @@ type Case struct {
 	// gets a reader at all.  SelfRef makes the globals stream refer to itself.
 	Globals *Case `json:"globals,omitempty"`
 	SelfRef bool  `json:"selfRef,omitempty"`
+	// Sub: measure in the worker subprocess (a crash of the process is an outcome)
+	Sub bool `json:"sub,omitempty"`
+	// Cap, when positive, is the exact output bound of the case (a JPEG frame)
+	Cap int `json:"cap,omitempty"`
 	body    []byte
 }
 
@@ -166,6 +170,9 @@ func ccittCap(parms c06.Val) int {
 }
 
 func capFor(c *Case) int {
+	if c.Cap > 0 {
+		return c.Cap
+	}
 	// a single CCITTFax stage: the exact bound
 	if c.Filter.T == "name" && c.Filter.S == "CCITTFaxDecode" {
 		return ccittCap(c.Parms)
@@ -434,7 +441,11 @@ func replay(ctx *core.Ctx, raw json.RawMessage) error {
 	if err := json.Unmarshal(raw, &c); err != nil {
 		return core.Infra("replay: %v", err)
 	}
-	r := measure(&c, false, true)
+	r, err := measureAny(&c, false, true)
+	stopWorker()
+	if err != nil {
+		return core.Infra("replay: worker: %v", err)
+	}
 	fmt.Printf("  outcome=%s produced=%d allocKB=%d wallUs=%d leaked=%d %s\n", r.Outcome, r.Produced, r.AllocKB, r.WallUs, r.Leaked, r.Note)
 	bad, err := judge(ctx, []Rec{r})
 	if err != nil {
